@@ -32,6 +32,8 @@ type Transaction struct {
 	Tags        []Tag
 	Comments    []Comment
 	Range       Range
+	// PayeeRange covers the payee, or the description when there is no payee part.
+	PayeeRange Range
 }
 
 type Date struct {
@@ -139,6 +141,8 @@ func (d CommodityDirective) GetRange() Range { return d.Range }
 type Include struct {
 	Path  string
 	Range Range
+	// PathRange covers the path argument of the directive.
+	PathRange Range
 }
 
 func (Include) directive()        {}
